@@ -262,7 +262,7 @@ func serverFlood(c *Ctx, r *Rng, n int) {
 
 func init() {
 	props["C02"] = func(c *Ctx) {
-		c.Res.Rule = "datagrams: arbitrary bytes (0..4200), structured header+TLV datagrams with one mutation (C01's generator), and datagrams whose attributes carry the types (and vendor framing) every shipped helper class addresses with adversarial values (wrong sizes, tag bytes, salt bits, sub-attribute lengths 0/1/2/255, truncated Vendor-Specific payloads). Each is run, under a panic guard and a 10 s watchdog, through Parse, ParseAttributes, both authenticity predicates (incl. nil secrets and swapped arguments), and when it parses: all 14 typed decoders and both password decoders on every attribute (incl. nil secret and short authenticator), Get/Gets/Lookup/GetString(s)/LookupString/String of every shipped helper whose attribute or vendor occurs, and debug.Dump with two dictionaries; Parse results and a read-only helper script are compared with the Coq models; a real PacketServer on loopback UDP is flooded with the same three kinds of datagrams interleaved with authentic requests: every authentic request must be answered and the handler must only ever see datagrams Parse accepts. non-trivial = datagram that passes the first length test"
+		c.Res.Rule = "datagrams: arbitrary bytes (0..4200), structured header+TLV datagrams with one mutation (C01's generator), and datagrams whose attributes carry the types (and vendor framing) every shipped helper class addresses with adversarial values (wrong sizes, tag bytes, salt bits, sub-attribute lengths 0/1/2/255, truncated Vendor-Specific payloads). Each is run, under a panic guard and a 10 s watchdog, through Parse, ParseAttributes, both authenticity predicates (incl. nil secrets and swapped arguments), and when it parses: all 14 typed decoders and both password decoders on every attribute (incl. nil secret and short authenticator), Get/Gets/Lookup/GetString(s)/LookupString/String of every shipped helper whose attribute or vendor occurs, and debug.Dump with two dictionaries; Parse results and a read-only helper script are compared with the Coq models; valid Tunnel-Password encryptions with every interesting embedded length octet are decoded directly and through the generated getter; a real PacketServer on loopback UDP is flooded with the same three kinds of datagrams interleaved with authentic requests: every authentic request must be answered and the handler must only ever see datagrams Parse accepts. non-trivial = datagram that passes the first length test"
 		c.Res.Extra = map[string]interface{}{}
 		r := c.Rng.Fork()
 		sec := []byte("s3cr3t")
@@ -318,10 +318,42 @@ func init() {
 				hostileHelperCase(c, r, p, sec)
 			}
 		}
+		// valid Tunnel-Password encryptions whose embedded length octet is set to every interesting value
+		// (only reachable with the right secret: random bytes never get there)
+		for i := 0; i < c.N(300, 6000); i++ {
+			pw := r.Bytes(r.Pick(0, 1, 14, 15, 16, 30, 31, 32, 100, 239))
+			salt := []byte{0x80 | byte(r.Intn(128)), byte(r.Intn(256))}
+			tsec, ra := r.Bytes(1+r.Intn(8)), r.Bytes(16)
+			a, err := radius.NewTunnelPassword(pw, salt, tsec, ra)
+			if err != nil {
+				continue
+			}
+			plain := len(a) - 2 // decrypted size, length octet included
+			want := r.Pick(plain-2, plain-1, plain, plain+1, 0, 255, r.Intn(256))
+			a[2] ^= byte(len(pw)) ^ byte(want)
+			keep := append([]byte(nil), a...)
+			if safely(func() { radius.TunnelPassword(a, tsec, ra) }) {
+				c.Fail("spec", "radius.TunnelPassword", "c02-panic", fmt.Sprintf("attribute %x secret %x authenticator %x (embedded length %d of %d decrypted bytes)", keep, tsec, ra, want&0xff, plain), "panic", "a value or an error", "no decoding entry point panics")
+			}
+			c.Add(T(Req{Name: "tp", Bs: [][]byte{keep, tsec, ra}}, implTP(keep, tsec, ra), "crafted-tunnel-password"))
+			// the same through a parsed packet and the generated getter
+			p := &radius.Packet{Code: 2, Identifier: 1, Secret: tsec}
+			copy(p.Authenticator[:], ra)
+			p.Add(69, append([]byte{1}, keep...))
+			q := &radius.Packet{Code: 1, Secret: tsec}
+			copy(q.Authenticator[:], ra)
+			for _, h := range registry {
+				if h.Pkg == "rfc2868" && h.Ident == "TunnelPassword" {
+					if safely(func() { h.Lookup(p, q); h.Gets(p, q) }) {
+						c.Fail("spec", "rfc2868.TunnelPassword_Lookup", "c02-panic", fmt.Sprintf("attribute %x", keep), "panic", "a value or an error", "no generated getter panics")
+					}
+				}
+			}
+		}
 		serverFlood(c, r, c.N(400, 6000))
 		c.Flush()
 		var need []string
-		for _, k := range []string{"arbitrary", "hostile-typed+parsed", "valid+parsed", "server-flood", "server-dispatched"} {
+		for _, k := range []string{"arbitrary", "hostile-typed+parsed", "valid+parsed", "server-flood", "server-dispatched", "crafted-tunnel-password"} {
 			need = append(need, k)
 		}
 		hh := false
